@@ -83,6 +83,33 @@ CLAIMS = {
             "Device model written from the documented legacy reply shapes (data + OK, OK, single line for "
             "a/i/mr/pi/qm/qg/v); stalls (extra reads that only cost time) are invisible.",
             "DESIGN.md §3.2, §4 C07, §5 F8"),
+    "C08": ("Hypothesis property test + exhaustive 7x7 lattice + committed corpus of failsafe-reaching inputs; "
+            "oracle = exact rational Liang-Barsky bracketed by the rectangle shrunk/grown by 1e-9 x scale, with "
+            "a conditioning rule for near-parallel crossings; deterministic line budget for termination",
+            "Generated segments x rectangles across ten scales, large offsets, ulp-nudged edge/corner endpoints, "
+            "degenerate rectangles and lines through corners; acceptance, on-segment, in-rectangle, orientation "
+            "and coverage judged in exact rationals. Exploration with a stated tolerance.",
+            "Defects smaller than 1e-9 x coordinate scale are invisible; coverage/acceptance are not demanded "
+            "where the crossing angle is below ~1e-3 (ill-conditioned), counted in the evidence.",
+            "DESIGN.md §3.3, §4 C08"),
+    "C09": ("Hypothesis property test + exhaustive small lattice; oracle = identity-subsequence check and exact "
+            "rational point-segment distances; differential between points_in_tolerance, "
+            "max_dist_from_n_points and the exact maximum",
+            "Generated vertex lists (lattice, noisy walks with back-steps, arcs, hooks, closed, repeated) x "
+            "tolerances; every deleted vertex is judged exactly against its surviving neighbours; the predicate "
+            "is pinned exactly on lattice inputs including exact ties.",
+            "Continuous inputs use a 1e-9 relative tie band; the statement is one-directional (does not demand "
+            "maximal deletion).",
+            "DESIGN.md §3.3, §4 C09"),
+    "C10": ("Hypothesis property test + hand-picked shapes; oracle = existence of a parse of the result into "
+            "aligned dyadic restrictions of each original cubic (exact blossoming, memoised search) + exact "
+            "flatness of every piece; deterministic line budget for termination",
+            "Generated node lists (loops, cusps, retracted handles, repeated nodes, closed paths) x flatness; "
+            "curve identity, survival of original nodes and flatness are judged in exact rationals without "
+            "structural knowledge of the implementation. Exploration.",
+            "Flatness/size >= 1e-4; control points within 1e-9 x scale of the exact restriction count as equal; "
+            "termination observed up to a line budget.",
+            "DESIGN.md §3.3, §4 C10"),
 }
 
 NOT_YET = "check not built yet in this session (planned in DESIGN.md §4); not claimed until it runs green"
